@@ -270,7 +270,11 @@ static void der_replace_fix(const dtree_t *t, const unsigned char *b, size_t ble
 
 /* ---- DER ops per node */
 enum { DOP_LEN0 = 0, DOP_NLEN = 18, DOP_TAG0 = DOP_NLEN, DOP_NTAG = 16, DOP_DEL = DOP_TAG0 + DOP_NTAG, DOP_DUP, DOP_NEST0,
-       DOP_NNEST = 5, DOP_INT0 = DOP_NEST0 + DOP_NNEST, DOP_NINT = 6, DOP_REP0 = DOP_INT0 + DOP_NINT, DOP_NREP = 8, DOP_PER_NODE = DOP_REP0 + DOP_NREP };
+       DOP_NNEST = 5, DOP_INT0 = DOP_NEST0 + DOP_NNEST, DOP_NINT = 6, DOP_REP0 = DOP_INT0 + DOP_NINT, DOP_NREP = 8,
+       /* structure-aware truncation: DOP_CUT_SIBLINGS drops every later sibling of the node inside its parent; DOP_CUT_ALL drops
+          everything that follows the node in the whole document (every ancestor then ends with this node); all enclosing lengths
+          are re-encoded, so the result is a well-formed encoding in which trailing OPTIONAL parts are simply absent */
+       DOP_CUT_SIBLINGS = DOP_REP0 + DOP_NREP, DOP_CUT_ALL, DOP_PER_NODE };
 static const int der_rep_count[DOP_NREP] = { 3, 4, 5, 9, 17, 33, 65, 257 };   /* element repeated that many times: fixed-size tables of 2^k (+1) entries in a parser */
 static const unsigned char der_tag_alphabet[DOP_NTAG] = { 0x02, 0x03, 0x04, 0x05, 0x06, 0x0c, 0x13, 0x16, 0x17, 0x18, 0x30, 0x31, 0xa0, 0xa3, 0x80, 0x82 };
 static const int der_nest_depth[DOP_NNEST] = { 1, 2, 4, 16, 64 };
@@ -359,6 +363,62 @@ static int der_mutate(const dtree_t *t, const unsigned char *b, size_t blen, int
         memcpy(rep + c->hl + n, b + c->off, c->hl + n);
         der_replace_fix(t, b, blen, k, rep, 2 * (c->hl + n), out, tmpa, tmpb);
         snprintf(detail, dn, "node=%d tag=%02x off=%u n=%u duplicated", k, c->tag, c->off, c->len);
+        return 1;
+    }
+    if (op == DOP_CUT_SIBLINGS || op == DOP_CUT_ALL)
+    {
+        int cur = k, levels = 0;
+        size_t curlen = c->hl + n;
+        unsigned char *alt = tmpa;      /* ping-pong between tmpc (rep) and tmpa */
+        unsigned char *src = rep, *dst = alt;
+        *cls = op == DOP_CUT_ALL ? "der-cut-all" : "der-cut-siblings";
+        if (c->parent < 0)
+        {
+            return 0;
+        }
+        {
+            const dnode_t *pp = &t->n[c->parent];
+            if (c->off + c->hl + n == pp->off + pp->hl + pp->len && op == DOP_CUT_SIBLINGS)
+            {
+                return 0;    /* already the last child */
+            }
+        }
+        memcpy(src, b + c->off, curlen);
+        while (t->n[cur].parent >= 0)
+        {
+            const dnode_t *P = &t->n[t->n[cur].parent];
+            size_t pre = t->n[cur].off - (P->off + P->hl), o2 = 0;
+            if (pre + curlen + 16 > C09_OUTMAX / 2)
+            {
+                return 0;
+            }
+            dst[o2++] = P->tag;
+            o2 += der_enc_len(dst + o2, pre + curlen);
+            memcpy(dst + o2, b + P->off + P->hl, pre); o2 += pre;
+            memcpy(dst + o2, src, curlen); o2 += curlen;
+            curlen = o2;
+            cur = t->n[cur].parent;
+            levels++;
+            { unsigned char *x = src; src = dst; dst = x; }
+            if (op == DOP_CUT_SIBLINGS)
+            {
+                break;
+            }
+        }
+        snprintf(detail, dn, "node=%d tag=%02x off=%u n=%u %s", k, c->tag, c->off, c->len, op == DOP_CUT_ALL ? "everything behind it dropped" : "later siblings dropped");
+        if (op == DOP_CUT_SIBLINGS)
+        {
+            /* src holds the re-encoded parent: put it in place of the parent, fixing the ancestors above */
+            if (src != rep)
+            {
+                memcpy(rep, src, curlen);
+            }
+            der_replace_fix(t, b, blen, cur, rep, curlen, out, tmpa, tmpb);
+            return 1;
+        }
+        mb_reset(out);
+        mb_add(out, b, t->n[cur].off);
+        mb_add(out, src, curlen);
         return 1;
     }
     if (op >= DOP_REP0)
